@@ -80,6 +80,22 @@ HARNESSES["C08"] = [
 ]
 
 
+EC = "analysis::event_consumer::verif_kani::"
+HARNESSES["C06"] = [
+    dict(name=EC + "c06_intermediate_ref_c3_s2", tier="quick", kernel="analysis::RecipeCollector::resolve_intermediate_ref", stubs=[RS, FMT],
+         bound="current section: 3 content entries, each symbolically step|text; 2 finished sections; val in 0..=i16::MAX, both modes, both targets; unwind 7",
+         budget_s=900,
+         obligation="Ok => the index addresses an existing earlier step of the current section (or an existing earlier section) and equals an "
+                    "independently computed reference (number: k-th step / section k; relative: k steps / sections back); Err exactly when 0 or out of range; no overflow"),
+    dict(name=EC + "c06_intermediate_ref_c0_s0", tier="quick", kernel="analysis::RecipeCollector::resolve_intermediate_ref", stubs=[RS, FMT],
+         bound="empty section, no finished sections", budget_s=600, obligation="every reference is refused, nothing panics"),
+    dict(name=EC + "c06_intermediate_ref_c4_s3", tier="thorough", kernel="analysis::RecipeCollector::resolve_intermediate_ref", stubs=[RS, FMT],
+         bound="4 content entries, 3 finished sections", budget_s=2400, obligation="same as c3_s2"),
+    dict(name=EC + "c06_intermediate_ref_twin_reach", tier="quick", kernel="analysis::RecipeCollector::resolve_intermediate_ref", stubs=[RS, FMT], twin=True,
+         bound="2 content entries, 1 finished section", budget_s=600, obligation="vacuity twin: an accepted reference is reachable"),
+]
+
+
 def select(prop, tier):
     out = []
     for e in HARNESSES.get(prop, []):
